@@ -4,6 +4,7 @@ package c11
 import (
 	"encoding/json"
 	"fmt"
+	"github.com/DemoHn/Zn/pkg/common"
 	"net/http"
 	"net/http/httptest"
 	"net/url"
@@ -53,9 +54,10 @@ type progCase struct {
 }
 
 type reqCase struct {
-	Headers    [][2]string `json:"headers"`
-	Query      [][2]string `json:"query"`
-	RawHeaders [][2]string `json:"raw_headers,omitempty"` // set in the header map as spelled
+	Headers     [][2]string `json:"headers"`
+	Query       [][2]string `json:"query"`
+	RawHeaders  [][2]string `json:"raw_headers,omitempty"`  // set in the header map as spelled
+	RespHeaders [][2]string `json:"resp_headers,omitempty"` // the program answers with a response object carrying these headers (in this order)
 }
 
 func replay(sub string, raw json.RawMessage) ([]h.Failure, error) {
@@ -430,9 +432,23 @@ func TestRepeatPrograms(t *testing.T) {
 // ---------------------------------------------------------------------------------------
 // (iii) request headers / query parameters through the HTTP handler
 
+var httpLib = func() *r.Library {
+	l := r.NewLibrary("@测试库")
+	l.RegisterClass("HTTP响应", common.CLASS_HttpResponse)
+	return l
+}()
+
 func checkRequest(c reqCase) []h.Failure {
 	entry := filepath.Join(tmpDir, fmt.Sprintf("entry-%d.zn", os.Getpid()))
-	os.WriteFile(entry, []byte("输入当前请求\n输出【“头” = 当前请求之头部，“参” = 当前请求之查询参数】"), 0o644)
+	prog := "输入当前请求\n输出【“头” = 当前请求之头部，“参” = 当前请求之查询参数】"
+	if len(c.RespHeaders) > 0 {
+		prog = "导入《@测试库》\n输入当前请求\n令应 = （新建HTTP响应：200、“体”）\n"
+		for _, kv := range c.RespHeaders {
+			prog += "以应之头部（写入：“" + kv[0] + "”、“" + kv[1] + "”）\n"
+		}
+		prog += "输出应"
+	}
+	os.WriteFile(entry, []byte(prog), 0o644)
 	first := ""
 	for i := 0; i < repeats; i++ {
 		q := url.Values{}
@@ -450,7 +466,7 @@ func checkRequest(c reqCase) []h.Failure {
 		var kind, msg, site string
 		h.Capture(func() {
 			kind, msg, site = h.Guard(func() {
-				hd := server.NewZnHttpHandler(exec.NewInterpreter("verif").SetExternalLibs(h.Libs()), entry)
+				hd := server.NewZnHttpHandler(exec.NewInterpreter("verif").SetExternalLibs(append([]*r.Library{httpLib}, h.Libs()...)), entry)
 				hd.ServeHTTP(rec, req)
 			})
 		})
@@ -458,6 +474,16 @@ func checkRequest(c reqCase) []h.Failure {
 			return []h.Failure{{Sig: "request/" + kind + "@" + site, Msg: msg}}
 		}
 		body := fmt.Sprintf("%d %s", rec.Code, rec.Body.String())
+		if len(c.RespHeaders) > 0 {
+			var names []string
+			for n := range rec.Header() {
+				names = append(names, n)
+			}
+			sort.Strings(names)
+			for _, n := range names {
+				body += fmt.Sprintf(" %s=%q", n, rec.Header()[n])
+			}
+		}
 		if i == 0 {
 			first = body
 			if rec.Code != http.StatusOK {
@@ -487,8 +513,17 @@ func TestRequestOrder(t *testing.T) {
 				c.RawHeaders = append(c.RawHeaders, [2]string{n, fmt.Sprint("r", i)})
 			}
 		}
+		labels := []string{"http-request"}
+		if rapid.IntRange(0, 2).Draw(t, "respobj") == 0 {
+			// the program answers with a response object; names that differ in capitalisation
+			// end up under one canonical header name, the values in the order they were set
+			for i, n := range rapid.Permutation([]string{"x-a", "X-A", "X-a", "x-b", "Content-Type", "x-c"}).Draw(t, "rsp")[:rapid.IntRange(2, 5).Draw(t, "nrsp")] {
+				c.RespHeaders = append(c.RespHeaders, [2]string{n, fmt.Sprint("v", i)})
+			}
+			labels = append(labels, "response-object-headers")
+		}
 		key, _ := json.Marshal(c)
-		h.R.Case(t, "request", string(key), c, []string{"http-request"}, true, checkRequest(c))
+		h.R.Case(t, "request", string(key), c, labels, true, checkRequest(c))
 	})
 }
 
